@@ -34,6 +34,7 @@ fn main() {
 		"C05" => checks::c05::run(&args),
 		"C06" => checks::c06::run(&args),
 		"C07" => checks::c07::run(&args),
+		"C08" => checks::c08::run(&args),
 		"C09" => checks::c09::run(&args),
 		"C10" => checks::c10::run(&args),
 		"C11" => checks::c11::run(&args),
